@@ -304,10 +304,15 @@ func (s *Module) ResetState(height uint32, cache *storage.MemCachedStore) error 
 		s.validatedHeight.Store(*validated)
 	} else {
 		cache.Delete([]byte{byte(storage.DataMPTAux), prefixValidated})
+		s.validatedHeight.Store(0)
 	}
 
 	s.currentLocal.Store(sr.Root)
 	s.localHeight.Store(sr.Index)
+	if s.srInHead {
+		// Every local root is a validated one then, see UpdateCurrentLocal.
+		s.validatedHeight.Store(sr.Index)
+	}
 	s.mpt = mpt.NewTrie(mpt.NewHashNode(sr.Root), s.mode, s.Store)
 
 	// Do not reset MPT nodes, leave the trie state itself as is.
